@@ -12,8 +12,9 @@ package net
 //@   nocall SetWriteDeadline
 //@   nocall Write
 //@   callpre (net.Conn).Read @reads-into-the-callers-buffer arg1 == b
-//@   modifies b[0:len(b)], rawreadn, rawreaderr, statval, atomu64
+//@   modifies b[0:len(b)], rawreadn, rawreaderr, rawreads, statval, atomu64
 //@   ensures @returns-what-the-socket-returned-unless-arming-the-deadline-failed (result0 == rawreadn && result1 == rawreaderr) || (result0 == 0 && result1 != nil && rawreadn == old(rawreadn))
+//@   ensures @one-socket-read-per-call-none-if-arming-the-deadline-failed rawreads == old(rawreads) + 1 || (rawreads == old(rawreads) && result0 == 0 && result1 != nil)
 
 //@ func (*Conn).Write
 //@   prop C05 C20
@@ -22,8 +23,9 @@ package net
 //@   nocall SetReadDeadline
 //@   nocall Read
 //@   callpre (net.Conn).Write @writes-the-callers-buffer arg1 == b
-//@   modifies rawwriten, rawwriteerr, statval, atomu64
+//@   modifies rawwriten, rawwriteerr, rawwrites, statval, atomu64
 //@   ensures @returns-what-the-socket-returned-unless-arming-the-deadline-failed (result0 == rawwriten && result1 == rawwriteerr) || (result0 == 0 && result1 != nil && rawwriten == old(rawwriten))
+//@   ensures @one-socket-write-per-call-none-if-arming-the-deadline-failed rawwrites == old(rawwrites) + 1 || (rawwrites == old(rawwrites) && result0 == 0 && result1 != nil)
 
 //@ func (*connCounter).incBytesIn
 //@   prop C05 C20
